@@ -17,10 +17,12 @@ source slot; fuel 0 coincides with that assertion failing (`Proofs.Finality.walk
 changes the result).  The `while` loop of `prune` runs on fuel `highest - first`; `Proofs.Finality` shows that
 under the tracker invariant it stops because the next slot is undecided, never because of the fuel.
 
-The model follows the code *after* the `fix:` commit for D14 (a late notarization / finalization
+The model follows the code *after* the `fix:` commits for D14 (a late notarization / finalization
 certificate restores a `Finalized` / `ImplicitlyFinalized` / `ImplicitlySkipped` status instead of leaving
-the weaker one in the map).  `markNotarizedOld` / `markFinalizedOld` keep the behaviour of the pinned snapshot for
-the witness theorems.
+the weaker one in the map) and D27 (an *implicitly* finalized block may have a notarized sibling in its slot:
+`handle_implicitly_finalized` no longer compares the hash of a previous `Notarized` status, `mark_notarized` no
+longer compares the hash of a previous `ImplicitlyFinalized` status).  The `…Old` definitions at the end keep the
+behaviour of the pinned snapshot (before both repairs) for the witness theorems.
 -/
 namespace AgModel.Finality
 
@@ -107,7 +109,7 @@ def walk : Nat → Tracker → Nat → Nat × Nat → Event → Option (Tracker 
         | some (.finalized h) => if h = blk.2 then some ({ t with status := st }, ev1) else none
         | some (.implFinalized h) => if h = blk.2 then some ({ t with status := st }, ev1) else none
         | some .implSkipped => none
-        | some (.notarized h) => if h = blk.2 then go else none
+        | some (.notarized _) => go   -- D27 repair: a notarized sibling is not a violation
         | some .finalPending => go
         | none => go
 
@@ -171,7 +173,8 @@ def markFastFinalized (t : Tracker) (blk : Nat × Nat) : Res :=
     | some .implSkipped => .panic
     | none => handleFinalizedBlock t1 blk {}
 
-/-- `mark_notarized` (after the D14 repair: decided statuses are restored). -/
+/-- `mark_notarized` (after the D14 repair: decided statuses are restored; after the D27 repair: a notarization
+    certificate for a slot that is `ImplicitlyFinalized` is not compared with the finalized block). -/
 def markNotarized (t : Tracker) (blk : Nat × Nat) : Res :=
   if blk.1 < t.first then .ok t {}   -- debug_assert! is compiled out (release semantics); the `if` below it returns the default event
   else
@@ -180,7 +183,7 @@ def markNotarized (t : Tracker) (blk : Nat × Nat) : Res :=
     | none => .ok t1 {}
     | some (.notarized h) => if h = blk.2 then .ok t1 {} else .panic
     | some (.finalized h) => if h = blk.2 then .ok t {} else .panic
-    | some (.implFinalized h) => if h = blk.2 then .ok t {} else .panic
+    | some (.implFinalized _) => .ok t {}   -- D27 repair: no assertion on the hash
     | some .implSkipped => .ok t {}
     | some .finalPending =>
       handleFinalizedBlock { t with status := setSt t.status blk.1 (.finalized blk.2) } blk {}
@@ -199,7 +202,78 @@ def markFinalized (t : Tracker) (slot : Nat) : Res :=
       handleFinalizedBlock { t with status := setSt t.status slot (.finalized h) } (slot, h) {}
     | some .implSkipped => .panic
 
-/-- `mark_notarized` of the pinned snapshot (before the D14 repair): the `insert` of `Notarized` stays. -/
+/-! ### The pinned snapshot (before the D14 and D27 repairs), for the witness theorems -/
+
+/-- `handle_implicitly_finalized` of the pinned snapshot: a previous `Notarized(hash)` status with a different hash
+    is a "consensus safety violation" panic (D27). -/
+def walkOld : Nat → Tracker → Nat → Nat × Nat → Event → Option (Tracker × Event)
+  | 0, _, _, _, _ => none
+  | f + 1, t, src, blk, ev =>
+    if ¬ blk.1 < src then none
+    else if blk.1 < t.first then some (t, ev)
+    else
+      match skipLoop t.status ev.implSkipped (src - blk.1 - 1) (blk.1 + 1) with
+      | .panic => none
+      | .ret st sk => some ({ t with status := st }, { ev with implSkipped := sk })
+      | .cont st sk =>
+        let ev1 : Event := { ev with implSkipped := sk }
+        let go : Option (Tracker × Event) :=
+          let t2 : Tracker := { t with status := setSt st blk.1 (.implFinalized blk.2) }
+          let ev2 : Event := { ev1 with implFinalized := ev1.implFinalized ++ [blk] }
+          match t.parents blk with
+          | some p => walkOld f t2 blk.1 p ev2
+          | none => some (t2, ev2)
+        match st blk.1 with
+        | some (.finalized h) => if h = blk.2 then some ({ t with status := st }, ev1) else none
+        | some (.implFinalized h) => if h = blk.2 then some ({ t with status := st }, ev1) else none
+        | some .implSkipped => none
+        | some (.notarized h) => if h = blk.2 then go else none
+        | some .finalPending => go
+        | none => go
+
+def handleFinalizedBlockOld (t : Tracker) (blk : Nat × Nat) (ev : Event) : Res :=
+  let ev1 : Event := { ev with finalized := some blk }
+  let t1 : Tracker := { t with highest := max blk.1 t.highest }
+  match t1.parents blk with
+  | some p =>
+    match walkOld blk.1 t1 blk.1 p ev1 with
+    | some (t2, ev2) => .ok (prune t2) ev2
+    | none => .panic
+  | none => .ok (prune t1) ev1
+
+def addParentOld (t : Tracker) (blk par : Nat × Nat) : Res :=
+  if ¬ par.1 < blk.1 then .panic
+  else if blk.1 < t.first then .ok t {}
+  else
+    match t.parents blk with
+    | some p => if p = par then .ok t {} else .panic
+    | none =>
+      let t1 : Tracker := { t with parents := setPar t.parents blk par }
+      let fin (h : Nat) : Res :=
+        if blk.2 = h then
+          match walkOld blk.1 t1 blk.1 par {} with
+          | some (t2, ev) => .ok (prune t2) ev
+          | none => .panic
+        else .ok t1 {}
+      match t1.status blk.1 with
+      | some (.finalized h) => fin h
+      | some (.implFinalized h) => fin h
+      | _ => .ok t1 {}
+
+def markFastFinalizedOld (t : Tracker) (blk : Nat × Nat) : Res :=
+  if blk.1 < t.first then .ok t {}
+  else
+    let t1 : Tracker := { t with status := setSt t.status blk.1 (.finalized blk.2) }
+    match t.status blk.1 with
+    | some (.finalized h) => if h = blk.2 then .ok t1 {} else .panic
+    | some (.implFinalized h) => if h = blk.2 then .ok t1 {} else .panic
+    | some (.notarized h) => if h = blk.2 then handleFinalizedBlockOld t1 blk {} else .panic
+    | some .finalPending => handleFinalizedBlockOld t1 blk {}
+    | some .implSkipped => .panic
+    | none => handleFinalizedBlockOld t1 blk {}
+
+/-- `mark_notarized` of the pinned snapshot: the `insert` of `Notarized` stays (D14), and a previous
+    `ImplicitlyFinalized(hash)` status with a different hash is a panic (D27). -/
 def markNotarizedOld (t : Tracker) (blk : Nat × Nat) : Res :=
   if blk.1 < t.first then .ok t {}
   else
@@ -211,7 +285,7 @@ def markNotarizedOld (t : Tracker) (blk : Nat × Nat) : Res :=
     | some (.implFinalized h) => if h = blk.2 then .ok t1 {} else .panic
     | some .implSkipped => .ok t1 {}
     | some .finalPending =>
-      handleFinalizedBlock { t with status := setSt t.status blk.1 (.finalized blk.2) } blk {}
+      handleFinalizedBlockOld { t with status := setSt t.status blk.1 (.finalized blk.2) } blk {}
 
 /-- `mark_finalized` of the pinned snapshot (before the D14 repair). -/
 def markFinalizedOld (t : Tracker) (slot : Nat) : Res :=
@@ -224,7 +298,7 @@ def markFinalizedOld (t : Tracker) (slot : Nat) : Res :=
     | some (.finalized _) => .ok t1 {}
     | some (.implFinalized _) => .ok t1 {}
     | some (.notarized h) =>
-      handleFinalizedBlock { t with status := setSt t.status slot (.finalized h) } (slot, h) {}
+      handleFinalizedBlockOld { t with status := setSt t.status slot (.finalized h) } (slot, h) {}
     | some .implSkipped => .panic
 
 /-- The inputs of the tracker. -/
